@@ -145,28 +145,31 @@ func doPmut(v int) (string, string) {
 		return strings.TrimSuffix(strings.TrimPrefix(res, "("), " int)")
 	}
 	before := get()
-	realm := "package mut\n\nimport \"" + boxPath + "\"\n\nvar mine = box.New()\n\nfunc Do(cur realm) {\n\t" +
-		pmutVariants[v].stmt + "\n}\n"
+	realm := "package mut\n\nimport \"" + boxPath + "\"\n\nvar mine = box.New()\n\nfunc Do(cur realm) int {\n\t" +
+		pmutVariants[v].stmt + "\n\treturn box.Get()\n}\n"
 	res := e.add(1, 0, mutPath, "mut", []*std.MemFile{{Name: "gnomod.toml", Body: gm(mutPath)}, {Name: "mut.gno", Body: realm}})
-	stage := "deploy"
+	stage, inTx := "deploy", ""
 	if res == "ok" {
 		stage = "call"
 		msg := vm.MsgCall{Caller: e.addrs[0], PkgPath: mutPath, Func: "Do"}
-		err, pn := e.runTx(1, func(ctx sdk.Context) error { _, err := e.vmk.Call(ctx, msg); return err })
+		var ret string
+		err, pn := e.runTx(1, func(ctx sdk.Context) error { r, err := e.vmk.Call(ctx, msg); ret = r; return err })
 		if pn != nil {
 			res = panicClass(pn)
 		} else {
 			res = errClass(err)
 		}
+		inTx = strings.TrimSuffix(strings.TrimPrefix(strings.TrimSpace(ret), "("), " int)")
 	}
 	after := get()
-	out := "rejected:" + stage
+	out := "rejected:" + stage + " v=" + after
 	if res == "ok" {
-		out = "ok"
+		// r = what the realm itself read from the /p/ package right after its attempt, in the same tx
+		out = "ok v=" + after + " r=" + inTx
 	}
 	orc := "ok"
-	if after != before {
-		orc = fmt.Sprintf("VIOL:p-mutated variant %d (%s): Get() %s -> %s", v, pmutVariants[v].stmt, before, after)
+	if after != before || (res == "ok" && inTx != before) {
+		orc = fmt.Sprintf("VIOL:p-mutated variant %d (%s): Get() %s -> %s (persisted), %s (in the same tx)", v, pmutVariants[v].stmt, before, after, inTx)
 	}
-	return out + " v=" + after, orc
+	return out, orc
 }
